@@ -27,7 +27,10 @@ Inductive op :=
 | OSetDone               (* LoadBool { dst: done, value: true } *)
 | OUndef                 (* LoadUndefined { dst: elem } *)
 | OBind                  (* DeclareVar / SetVar from elem: the position's identifier *)
-| OClose.                (* IteratorClose { iterator } *)
+| OClose                 (* IteratorClose { iterator } *)
+| ORest                  (* CreateRestArray { dst: rest, iterator }: drains the iterator *)
+| OEmptyRest             (* CreateArray { dst: rest, count: 0 } *)
+| OBindRest.             (* DeclareVar / SetVar from rest: the rest element's identifier *)
 
 Inductive res := RNone | RVal (v : V) | RDone.
 
@@ -50,6 +53,12 @@ Definition exec (o : op) (s : st) : st :=
     | OUndef => mk (S p) i r undef d b n c
     | OBind => mk (S p) i r e d (b ++ [e]) n c
     | OClose => mk (S p) i r e d b n true
+    (* the rest array is recorded as the values behind the positions' values: [bound] is the
+       positions' values followed by the elements of the rest array; draining calls next() once
+       per remaining value and once more to see the end *)
+    | ORest => mk (S p) [] RDone e d (b ++ i) (S (length i + n)) c
+    | OEmptyRest => mk (S p) i r e d b n c
+    | OBindRest => mk (S p) i r e d b n c
     end
   end.
 
@@ -89,6 +98,12 @@ Fixpoint csteps (ks : list bool) (p : nat) : list op :=
 Definition cpattern (ks : list bool) (p : nat) : list op :=
   OInit :: csteps ks (1 + p) ++ [OJumpIfDone (2 + (length (csteps ks (1 + p)) + (1 + p))); OClose].
 
+(* a pattern ending in a rest element: no close (the rest exhausts the iterator), and an iterator
+   that already reported done is not asked again *)
+Definition cpattern_rest (ks : list bool) (p : nat) : list op :=
+  let base := length (csteps ks (1 + p)) + (1 + p) in
+  OInit :: csteps ks (1 + p) ++ [OJumpIfDone (3 + base); ORest; OJump (4 + base); OEmptyRest; OBindRest].
+
 (* the compilation before the repair: next, value, bind; close unconditionally *)
 Definition cstep_old (binding : bool) : list op :=
   if binding then [ONext; OValue; OBind] else [ONext].
@@ -115,6 +130,13 @@ Definition spec (ks : list bool) (it : list V) : abs := spec_steps ks (mka it fa
 
 (* the iterator is closed (return() is called) exactly when it was not exhausted *)
 Definition spec_closed (ks : list bool) (it : list V) : bool := negb (a_done (spec ks it)).
+
+(* with a rest element behind the positions: the rest takes what is left, unless the iterator
+   already reported done (then it is empty and next() is not called again); never closed *)
+Definition spec_rest (ks : list bool) (it : list V) : abs :=
+  let a := spec ks it in
+  if a_done a then a
+  else mka [] true (a_bound a ++ a_iter a) (S (length (a_iter a) + a_nexts a)).
 
 Definition abs_of (s : st) : abs := mka (iter s) (done s) (bound s) (nexts s).
 
